@@ -179,6 +179,7 @@ class Builder:
         self.allow_empty = False
         self.npint_args = False
         self.allow_nonfinite = False
+        self.special_scalars = False   # Python-scalar operands also take the values operator fast paths test for (1, 2, -1, True, ...)
 
     # -- helpers
     def name(self, p="v"):
@@ -333,6 +334,8 @@ def other_operand(b, x, allow_const=True):
         n = b.leaf(bcast_variants(rng, shape), kind="array")
         return R(n), [n]
     if c < 0.85:
+        if b.special_scalars and rng.random() < 0.35:
+            return rng.choice([1, 1, 2, -1, 1.0, 2.0, 0.5, True, 3, -2.0]), []
         return round(rng.uniform(0.4, 2.0) * rng.choice([1, -1]), 3), []
     if c < 0.93:
         return ["s", "float64", round(rng.uniform(0.4, 2.0), 3)], []
